@@ -32,7 +32,21 @@ def _call(f, *a, **kw):
         return ('exc', type(e).__name__, str(e)[:200])
 
 
+class GetitemSeq:
+    """iterable only through the old sequence protocol (__getitem__ + __len__, no __iter__): legal for iter() and for loops"""
+    def __init__(self, items):
+        self._items = list(items)
+
+    def __getitem__(self, i):
+        return self._items[i]
+
+    def __len__(self):
+        return len(self._items)
+
+
 def _wrap(items, form):
+    if form == 'getitem':
+        return GetitemSeq(items)
     if form == 'list':
         return list(items)
     if form == 'tuple':
@@ -44,7 +58,7 @@ def _wrap(items, form):
     raise HarnessError('form %r' % (form,))
 
 
-_forms = st.sampled_from(['list', 'tuple', 'iter', 'gen'])
+_forms = st.sampled_from(['list', 'tuple', 'iter', 'gen', 'getitem'])
 _item = st.integers(0, len(ITEMS) - 1)
 _seq = st.lists(_item, max_size=40)
 
@@ -260,6 +274,8 @@ def run_split(case):
     is_sep = [c in seps for c in raw]
     sep_arg = {'none': None, 'scalar': 'SEP', 'set': {'SEP', 'SEP2'}, 'list': ['SEP', 'SEP2'],
                'callable': (lambda x: x in ('SEP', 'SEP2'))}[mode]
+    if mode == 'list' and case.get('form') == 'getitem':
+        sep_arg = GetitemSeq(['SEP', 'SEP2'])       # the collection of separators itself is such a sequence
     sepkind = case.get('sepkind', 'str') if mode == 'scalar' else 'str'
     if sepkind != 'str':
         forms = [b'SEP', bytearray(b'SEP')] if sepkind == 'bytes' else [1, 1.0, True]
